@@ -390,6 +390,8 @@ MODEL_MAX_NODES = 45         # the Gallina model is evaluated by vm_compute; its
 def coq_case(case):
     if case.get("attrs"):
         return None          # non-default attribute keys / WL options: outside the model, oracle only
+    if case.get("nomodel"):
+        return None          # very large automorphism groups: budgeted out of the Coq side
     if any(len({s for _, _, l, r in n["rxns"] for s, _ in l + r} | set(n.get("iso", []))) + len(n["rxns"]) > MODEL_MAX_NODES for n in case["nets"]):
         return None
     if case.get("ops"):
@@ -1355,6 +1357,34 @@ def _big_cases(rng, sizes):
     return out
 
 
+def _bigsym_cases(rng, ms, heavy_ms):
+    """large symmetric groups: m mutually interchangeable species (|Aut| = m!, 720 / 5040): one reaction hub >> S1..Sm, one reaction
+    S1+..+Sm >> P, m parallel reactions S_i >> P, and near misses (one coefficient raised: the group drops to (m-1)!).  The depth-first
+    enumeration of such a group keeps its first node fixed for (m-1)! consecutive mappings."""
+    out = []
+    for m in ms:
+        S_ = ["S%d" % i for i in range(1, m + 1)]
+        fams = [
+            ("hub", ["hub"] + S_, lambda c: [((("hub", 1),), tuple((x, c[i]) for i, x in enumerate(S_)))]),
+            ("join", S_ + ["P"], lambda c: [(tuple((x, c[i]) for i, x in enumerate(S_)), (("P", 1),))]),
+        ]
+        if m in heavy_ms:
+            fams.append(("par", S_ + ["P"], lambda c: [(((x, c[i]),), (("P", 1),)) for i, x in enumerate(S_)]))
+        for name, sp, mk in fams:
+            ones = [1] * m
+            bump = list(ones)
+            bump[rng.randrange(m)] = 2
+            for view, st in (("sp", True), ("bip", True)):
+                if name == "par" and view == "bip" and m > 6:
+                    continue
+                nets = [_net_of(mk(ones)), _variant(mk(ones), rng, sp, _names(rng, len(sp))), _net_of(mk(bump))]
+                c = _case("bigsym", view, st, nets, ["base", "variant", "other"])
+                if m >= 7 or (name == "par" and view == "bip"):
+                    c["nomodel"] = True        # the Coq side is budgeted by group size x view size: these are judged by the oracle only
+                out.append(c)
+    return out
+
+
 def gen_cases(tier, rng):
     cases = []
     # exhaustive small scope: both tiers
@@ -1377,6 +1407,7 @@ def gen_cases(tier, rng):
     cases += _collision_cases()
     cases += _long_cases(rng)
     cases += _degenerate_cases(rng)
+    cases += _bigsym_cases(rng, [6], [6]) if tier == "quick" else _bigsym_cases(rng, [6, 7], [6])
     cases += _intids_cases(rng)
     cases += _attr_cases(rng)
     cases += _hist_cases(rng, 30 if tier == "quick" else 300)
